@@ -726,7 +726,8 @@ def encodes : Values → Bytes
 end
 
 /-- `TLVWrite::tlv(tag, value)` **after the fix**: a string whose length does not fit the length field
-of its element type is refused with `InvalidData` before anything is written; everything else is
+of its element type is refused with `InvalidData` before any byte of that element is written (the model has no buffer
+state: bytes written earlier — enclosing `start_*` headers, siblings — stay in the buffer); everything else is
 written as `header ++ payload`.  (Before the fix — and still in the infallible iterator writer
 `TLV::bytes_iter` / `TLVValueIter` — the length is cast with `as u8/u16/u32`: that is `encode`, whose
 `leBytes w.bytes b.length` truncates the same way.) -/
